@@ -8,6 +8,7 @@ var verifHarnesses = map[string]func(){
 	"VerifC10Caller":    VerifC10Caller,
 	"VerifC09":          VerifC09,
 	"VerifC09Error":     VerifC09Error,
+	"VerifC18Script":    VerifC18Script,
 	"VerifC11":          VerifC11,
 	"VerifC11Step":      VerifC11Step,
 	"VerifC10Isolation": VerifC10Isolation,
